@@ -1027,7 +1027,26 @@ pub fn gen_document(t: &mut Tape, schema: &mut Schema, cfg: &GenCfg) -> Document
                         }
                         sub
                     } else {
-                        vec![Selection::Typename, Selection::Inline { on: on_name.clone(), sel: inner }]
+                        let mut sub = vec![Selection::Typename];
+                        // sometimes another member's inline fragment that ends with a list-typed leaf
+                        // comes along (whatever the generator looks at "last" must not leak into the alias)
+                        let others: Vec<usize> = schema_ro.possible_types(f.ty.named).into_iter().filter(|o| *o != oi).collect();
+                        if !others.is_empty() && t.chance(50) {
+                            let o = *t.pick(&others);
+                            let leafs: Vec<&FieldDef> = schema_ro.objects[o].fields.iter().filter(|lf| !lf.ty.named.is_composite() && lf.args.is_empty()).collect();
+                            let mut osel: Vec<Selection> = Vec::new();
+                            if let Some(plain) = leafs.iter().find(|lf| lf.ty.depth() == 0) {
+                                osel.push(Selection::Field(FieldSel { alias: None, name: plain.name.clone(), args: vec![], sel: vec![] }));
+                            }
+                            if let Some(list) = leafs.iter().find(|lf| lf.ty.depth() > 0) {
+                                osel.push(Selection::Field(FieldSel { alias: None, name: list.name.clone(), args: vec![], sel: vec![] }));
+                            }
+                            if !osel.is_empty() {
+                                sub.push(Selection::Inline { on: schema_ro.objects[o].name.clone(), sel: osel });
+                            }
+                        }
+                        sub.push(Selection::Inline { on: on_name.clone(), sel: inner });
+                        sub
                     };
                     sel.push(Selection::Field(FieldSel { alias: None, name: f.name.clone(), args: vec![], sel: sub }));
                 } else if !cands.is_empty() {
